@@ -22,7 +22,7 @@ def levels(spec, out, rank):
     return [rank + str(j) for j in range(n, -1, -1)]
 
 
-def default_loop_order(spec, e):
+def root_order(e):
     out_written = [v.upper() for i in e.out.idx for _, v in i]
     order = list(out_written)
     for t in e.terms:
@@ -32,6 +32,35 @@ def default_loop_order(spec, e):
                     r = v.upper()
                     if r not in order:
                         order.append(r)
+    return order
+
+
+def flatten_groups(spec, out):
+    parts = (spec.partitioning or {}).get(out) or {}
+    return [[x.strip() for x in k.strip("()").split(",")] for k in parts if k.startswith("(")]
+
+
+def flatten_in_place(spec, e):
+    """True when every flatten() of this Einsum names root ranks that are adjacent, and in the
+    tuple's order, in the root default order: the one case in which "each partitioned rank
+    replaced in place" says where the flattened rank goes."""
+    order = root_order(e)
+    for g in flatten_groups(spec, e.out.name):
+        if any(r not in order for r in g):
+            return False
+        i = order.index(g[0])
+        if order[i:i + len(g)] != g:
+            return False
+    return True
+
+
+def default_loop_order(spec, e):
+    order = root_order(e)
+    for g in flatten_groups(spec, e.out.name):
+        if all(r in order for r in g):
+            i = order.index(g[0])
+            if order[i:i + len(g)] == g:
+                order[i:i + len(g)] = ["".join(g)]
     lo = []
     for r in order:
         lo.extend(levels(spec, e.out.name, r))
@@ -51,6 +80,9 @@ def take_before_product(e):
 
 
 def has_flatten(spec):
+    """A flatten() the statement does not place (see flatten_in_place)."""
+    if all(flatten_in_place(spec, e) for e in spec.exprs):
+        return False
     for ps in (spec.partitioning or {}).values():
         for k, ds in (ps or {}).items():
             if "(" in k or any(d.startswith("flatten") for d in ds):
